@@ -158,10 +158,51 @@ def r3_reads_clone_and_mutation_needs_lvalue(ctx):
     for c in ev.calls():
         if (c.callee or "").endswith("get_unchecked_mut"):
             src = sh(ne(ev.deep(c.args[0])))
-            if "eval_expr" in src:
+            alts = []
+            for o in _root_operands(ev, c.args[0]):
+                alts += [sh(ne(a)) for a in ev.alt_exprs(o, 6)]
+            if "eval_expr" in src or (alts and all("eval_expr" in a for a in alts)):
                 ctx.ok("index-read|from-private-copy", ev.where(c.block), "element moved out of the evaluated (cloned) array")
             else:
                 ctx.bad("index-read|from-private-copy", ev.where(c.block), "an index read takes its element out of `%s`" % src[:60])
+
+
+def _root_operands(fn, operand):
+    """The whole locals a reference operand points into (through reborrows and downcasts/fields)."""
+    pl = (operand.get("move") or operand.get("copy")) if isinstance(operand, dict) else None
+    out, work, seen = [], [pl["l"]] if pl else [], set()
+    while work:
+        l = work.pop()
+        if l in seen:
+            continue
+        seen.add(l)
+        for (bi, k, st) in fn.whole_defs(l):
+            if k == "t":
+                for a in st.get("args", [])[:1]:
+                    p2 = (a.get("move") or a.get("copy")) if isinstance(a, dict) else None
+                    if p2 is not None and not p2["p"]:
+                        work.append(p2["l"])
+                continue
+            rv = st["rv"]
+            if rv["k"] == "ref":
+                if fn.locals[rv["of"]["l"]]["ty"].startswith("&") or "*" in rv["of"]["p"]:
+                    work.append(rv["of"]["l"])
+                else:
+                    root = rv["of"]["l"]
+                    for _ in range(4):      # `let Value::Array(items) = value`: the parts moved out of a whole value
+                        ds = fn.whole_defs(root)
+                        if len(ds) == 1 and ds[0][1] != "t" and ds[0][2]["rv"]["k"] == "use":
+                            p3 = ds[0][2]["rv"]["a"].get("move") or ds[0][2]["rv"]["a"].get("copy") if isinstance(ds[0][2]["rv"]["a"], dict) else None
+                            if p3 is not None and p3["p"] and "*" not in p3["p"]:
+                                root = p3["l"]
+                                continue
+                        break
+                    out.append({"copy": {"l": root, "p": []}})
+            elif rv["k"] == "use":
+                p2 = (rv["a"].get("move") or rv["a"].get("copy")) if isinstance(rv["a"], dict) else None
+                if p2 is not None:
+                    work.append(p2["l"])
+    return out
 
 
 def r4_mutation_target_is_the_lexical_variable(ctx):
@@ -210,3 +251,6 @@ EXPLANATION = (
 ASSUMPTIONS = ["no unsafe code outside the arena/cow/process handle modules creates a second owner of a Vec<Value> (unsafe census in evidence notes)"]
 TRUSTED = ["rustc ownership rules", "nsx exporter", "nsverif region analysis"]
 NONTRIVIAL = "one obligation per clone arm, per copied field, per mutable environment access and per who-may-call edge"
+EXPLANATION += (
+    " R3's index-read clause follows the element's source through destructuring and through every reaching definition (a detached copy or the evaluated value itself)."
+)
